@@ -158,7 +158,8 @@ def run(ctx):
                     rep.finding("ident:format-raises:%s" % f[1], "format(%s) raised %s" % (json.dumps(tree)[:100], f[1]),
                                 {"kind": "format", "tree": tree, "ansi_quotes": aq})
                     continue
-                r = R.parse_raw(f[1])
+                # ansi_quotes=False is the style for readers that take a double-quoted text for a string literal
+                r = R.parse_raw(f[1], "common" if aq else "mysql")
                 got = {"ok": C.canon(r[1])} if r[0] == "ok" else {"$err": r[1]}
                 rep.sample({"name": n, "position": pos, "format": f[1]})
                 if C.cdump(got) != C.cdump({"ok": C.canon(tree)}):
@@ -185,7 +186,8 @@ def replay(ctx, p):
         got = {"ok": C.canon(r[1])} if r[0] == "ok" else {"$err": r[1]}
         print(p["sql"], "->", C.cdump(got))
         return C.cdump(got) != C.cdump(p["expected"])
+    R.format_raw(p["tree"], ansi_quotes=not p["ansi_quotes"])      # the other style first, as may happen in one process
     f = R.format_raw(p["tree"], ansi_quotes=p["ansi_quotes"])
-    r = R.parse_raw(f[1]) if f[0] == "ok" else ("err", f[1])
+    r = R.parse_raw(f[1], "common" if p["ansi_quotes"] else "mysql") if f[0] == "ok" else ("err", f[1])
     print(f, "->", r)
     return not (r[0] == "ok" and C.cdump(C.canon(r[1])) == C.cdump(C.canon(p["tree"])))
